@@ -363,6 +363,10 @@ def judge(ctx, scenarios, results, events, name, default_prop):
         key = (mode, tuple(reset.get("policyok") or ()), sc.get("default", 2))
         if not sc.get("novalidate"):      # (two agents in one process share the hook sink: their events cannot be told apart)
             groups.setdefault(key, []).extend(evs)
+        for e in evs:      # a successful reload uses the default parameter set of the configuration on disk
+            if e["ev"] == "reloadok" and str(e.get("n")) != str(e.get("p")):
+                ctx.violation("C12" if ctx.pid == "C12" else "C18", "reload-keeps-old-default",
+                              "scenario %s: the configuration on disk names default %s, after the reload the agent uses %s" % (sc["name"], e.get("n"), e.get("p")))
         # ---- expectations outside the trace spec
         if idle is None:
             ctx.inconclusive.append("scenario %s produced no idle event" % sc["name"])
@@ -394,9 +398,24 @@ def judge(ctx, scenarios, results, events, name, default_prop):
             ctx.violation(sc.get("expect_prop", default_prop), sc.get("expect_key", "directory-changed"),
                           "scenario %s: the store directory changed byte-wise although it must not" % sc["name"])
     n = 0
+    # validate each group in chunks of whole runs (a run starts at its `reset` line): the cost of a step grows with the
+    # number of client identities in the trace, so short traces in parallel are much cheaper than one long one
+    jobs = []
     for (mode, pol, default), evs in groups.items():
         n += sum(1 for e in evs if e["ev"] == "reset")
-        ok, tres = validate(ctx, evs, mode, "%s-%s-%d" % (name, mode, abs(hash(pol)) % 10000), default=default, policyok=list(pol) or None)
+        starts = [i for i, e in enumerate(evs) if e["ev"] == "reset"] + [len(evs)]
+        chunk, k = [], 0
+        for a, b in zip(starts, starts[1:]):
+            if chunk and len(chunk) + (b - a) > 5000:
+                jobs.append((mode, pol, default, chunk, k)); chunk = []; k += 1
+            chunk = chunk + evs[a:b]
+        if chunk:
+            jobs.append((mode, pol, default, chunk, k))
+    import concurrent.futures
+    with concurrent.futures.ThreadPoolExecutor(max_workers=6) as ex:
+        outs = list(ex.map(lambda j: validate(ctx, j[3], j[0], "%s-%s-%d-%d" % (name, j[0], abs(hash(j[1])) % 10000, j[4]), default=j[2],
+                                              policyok=list(j[1]) or None), jobs))
+    for (mode, pol, default, evs, k), (ok, tres) in zip(jobs, outs):
         if ok is False:
             prop, key, detail = classify_rejection(evs, tres, default_prop)
             i = (tres.get("hwm") or (1, 0))[0] - 1
@@ -407,7 +426,9 @@ def judge(ctx, scenarios, results, events, name, default_prop):
                 prop, key = "C17", "policy-failing-password-stored:%s" % e["k"]
             elif e.get("ev") == "ret" and e.get("k") in ("add", "update") and not e.get("ok") and "policy" in str(e.get("err", "")):
                 prop, key = "C17", "policy-ok-password-refused:%s" % e["k"]
-            ctx.violation(prop, key, detail)
+            a = max((j for j in range(min(i, len(evs) - 1) + 1) if evs[j]["ev"] == "reset"), default=0)
+            b = next((j for j in range(i + 1, len(evs)) if evs[j]["ev"] == "reset"), len(evs))
+            ctx.violation(prop, key, detail, run_events=evs[a:b][:400], rejected_at=i - a + 1)
             if prop != ctx.pid:
                 # the rest of this trace could not be judged: this run cannot claim that its own property held
                 ctx.inconclusive.append("a recorded trace of this check is not a behaviour of TraceAgent (reason attributed to %s: %s %s); "
